@@ -394,4 +394,66 @@ theorem diag_adjacent_w (u e w p : V2 K) (hS : 0 < area2 u e w) (hp : OutsideTri
   exact h1 _ (onSeg_lerp w p hq0.le hq.le)
     (onSeg_of_area_zero u e w _ hS y1 (by rw [y2]; exact hS.le) y3.ge)
 
+/-! ## gluing two convex polygons along an edge
+
+`P₁` (counter-clockwise, edge `s → e`, neighbouring edges `z → s` and `e → a0`) and `P₂` (edge `e → s`, neighbouring edges
+`y → e` and `s → b0`) lie on opposite sides of the line `s e`.  If the two new corners `(z, s, b0)` and `(y, e, a0)` are not
+clockwise, every vertex `v` of `P₂` is on the closed left of every edge of `P₁` other than `s → e`. -/
+
+/-- cone at `e`: a point left of `e → s` and of `y → e` is left of `e → a0`, when `a0` is left of `y → e` (the tested
+corner) and of `s → e`, and the corner `(y, e, s)` of `P₂` is strict -/
+theorem cone_left_e (e s y a0 v : V2 K) (h1 : 0 ≤ area2 e s v) (h2 : 0 ≤ area2 y e v) (h3 : 0 ≤ area2 y e a0)
+    (h4 : 0 ≤ area2 s e a0) (h5 : 0 < area2 y e s) : 0 ≤ area2 e a0 v := by
+  have hid : area2 e a0 v * area2 y e s = area2 s e a0 * area2 y e v + area2 y e a0 * area2 e s v := by
+    simp only [area2]; ring
+  have : 0 ≤ area2 e a0 v * area2 y e s := by rw [hid]; exact add_nonneg (mul_nonneg h4 h2) (mul_nonneg h3 h1)
+  exact nonneg_of_mul_nonneg_left this h5
+
+/-- cone at `s` (mirror image of `cone_left_e`) -/
+theorem cone_left_s (s e z b0 v : V2 K) (h1 : 0 ≤ area2 e s v) (h2 : 0 ≤ area2 s b0 v) (h3 : 0 ≤ area2 z s b0)
+    (h4 : 0 ≤ area2 z s e) (h5 : 0 < area2 e s b0) : 0 ≤ area2 z s v := by
+  have hid : area2 z s v * area2 e s b0 = area2 s b0 v * area2 z s e + area2 e s v * area2 z s b0 := by
+    simp only [area2]; ring
+  have : 0 ≤ area2 z s v * area2 e s b0 := by rw [hid]; exact add_nonneg (mul_nonneg h2 h4) (mul_nonneg h1 h3)
+  exact nonneg_of_mul_nonneg_left this h5
+
+/-- on the line `s e`, the value of `area2 a b ·` is the combination of its values at `s` and `e` with the weights read
+off the two neighbouring edge lines -/
+private theorem line_interp (a b s e z a0 r : V2 K) (hr : area2 s e r = 0) :
+    area2 a b r * area2 s e a0 * area2 z s e =
+      area2 e a0 r * area2 a b s * area2 z s e + area2 z s r * area2 a b e * area2 s e a0 := by
+  simp only [area2] at hr ⊢
+  linear_combination (a0.x*a.x*b.y*s.y - a0.x*a.x*b.y*z.y - a0.x*a.x*e.y*s.y + a0.x*a.x*e.y*z.y - a0.x*a.y*b.x*s.y + a0.x*a.y*b.x*z.y + a0.x*a.y*e.y*s.x - a0.x*a.y*e.y*z.x - a0.x*a.y*s.x*z.y + a0.x*a.y*s.y*z.x + a0.x*b.x*e.y*s.y - a0.x*b.x*e.y*z.y - a0.x*b.y*e.y*s.x + a0.x*b.y*e.y*z.x + a0.x*b.y*s.x*z.y - a0.x*b.y*s.y*z.x - a0.y*a.x*b.y*s.x + a0.y*a.x*b.y*z.x + a0.y*a.x*e.x*s.y - a0.y*a.x*e.x*z.y + a0.y*a.x*s.x*z.y - a0.y*a.x*s.y*z.x + a0.y*a.y*b.x*s.x - a0.y*a.y*b.x*z.x - a0.y*a.y*e.x*s.x + a0.y*a.y*e.x*z.x - a0.y*b.x*e.x*s.y + a0.y*b.x*e.x*z.y - a0.y*b.x*s.x*z.y + a0.y*b.x*s.y*z.x + a0.y*b.y*e.x*s.x - a0.y*b.y*e.x*z.x - a.x*b.y*e.x*s.y + a.x*b.y*e.x*z.y + a.x*b.y*e.y*s.x - a.x*b.y*e.y*z.x - a.x*e.y*s.x*z.y + a.x*e.y*s.y*z.x + a.y*b.x*e.x*s.y - a.y*b.x*e.x*z.y - a.y*b.x*e.y*s.x + a.y*b.x*e.y*z.x + a.y*e.x*s.x*z.y - a.y*e.x*s.y*z.x + b.x*e.y*s.x*z.y - b.x*e.y*s.y*z.x - b.y*e.x*s.x*z.y + b.y*e.x*s.y*z.x) * hr
+
+/-- **a far edge of `P₁` has `P₂` on its left**: `a → b` is an edge of `P₁` whose start `a` is strictly left of `s → e`;
+`v` (a vertex of `P₂`) is right of `s → e` and left of the two edges of `P₁` next to `s → e`. -/
+theorem far_edge_left (a b s e z a0 v : V2 K)
+    (fs : 0 ≤ area2 a b s) (fe : 0 ≤ area2 a b e) (ca : 0 < area2 s e a) (cv : area2 s e v ≤ 0)
+    (pev : 0 ≤ area2 e a0 v) (pea : 0 ≤ area2 e a0 a) (psv : 0 ≤ area2 z s v) (psa : 0 ≤ area2 z s a)
+    (se : 0 < area2 s e a0) (ss : 0 < area2 z s e) : 0 ≤ area2 a b v := by
+  by_contra hneg
+  push Not at hneg
+  -- the point of `[v, a]` on the line `s e`
+  have hden : 0 < area2 s e a - area2 s e v := by linarith
+  set t := -area2 s e v / (area2 s e a - area2 s e v) with ht
+  have t0 : 0 ≤ t := div_nonneg (by linarith) hden.le
+  have t1 : t < 1 := by rw [ht, div_lt_one hden]; linarith
+  set r := lerp v a t with hr
+  have hχ : area2 s e r = 0 := by
+    rw [hr, area2_lerp, ht]; field_simp; ring
+  have hφ : area2 a b r < 0 := by
+    rw [hr, area2_lerp, area2_self_left]
+    have : 0 < 1 - t := by linarith
+    nlinarith [mul_neg_of_pos_of_neg this hneg]
+  have hψe : 0 ≤ area2 e a0 r := by
+    rw [hr, area2_lerp]; exact add_nonneg (mul_nonneg (by linarith) pev) (mul_nonneg t0 pea)
+  have hψs : 0 ≤ area2 z s r := by
+    rw [hr, area2_lerp]; exact add_nonneg (mul_nonneg (by linarith) psv) (mul_nonneg t0 psa)
+  have hid := line_interp a b s e z a0 r hχ
+  have hrhs : 0 ≤ area2 e a0 r * area2 a b s * area2 z s e + area2 z s r * area2 a b e * area2 s e a0 :=
+    add_nonneg (mul_nonneg (mul_nonneg hψe fs) ss.le) (mul_nonneg (mul_nonneg hψs fe) se.le)
+  have hlhs : area2 a b r * area2 s e a0 * area2 z s e < 0 :=
+    mul_neg_of_neg_of_pos (mul_neg_of_neg_of_pos hφ se) ss
+  linarith
+
 end C16
